@@ -562,3 +562,11 @@ F("K52", "C18", EC, "    if y % self.mod == 0:\n      return INFINITY\n", "    i
 T("K53", "C18", EC, "    if (x1 - x2) % self.mod == 0:\n      if (y1 - y2) % self.mod == 0:", "    if (x2 - x1) % self.mod == 0:\n      if (y1 - y2) % self.mod == 0:", "Add: difference taken the other way round")
 T("K54", "C11", EC, "    if (x1 - x2) % self.mod == 0:\n      if (y1 - y2) % self.mod == 0:", "    if x1 == x2:\n      if y1 == y2:", "Add with integer comparison is still the group law on reduced points (C11 silent)")
 F("K55", "C11", EC, "    if y % self.mod == 0:\n      return INFINITY\n", "    if x % self.mod == 0:\n      return INFINITY\n", "R-C11-DISPATCH", "Double: infinity returned for x = 0")
+
+# ---------------------------------------------------------------------------------- C12/C13 matrix-size ladder (round 2)
+ENS = L + "randomness_tests/extended_nist_suite.py"
+F("K60", "C13", ENS, "  while size * size <= n:", "  while size * size < n:", "R-C13-RANK", "largest exactly fitting matrix never tested (seed r2)")
+F("K61", "C12", ENS, "  while size * size <= n:", "  while size * size < n:", "R-C12-LADDER", "same change seen from C12")
+T("K62", "C12", ENS, "  while size * size <= n:", "  while n >= size * size:", "ladder condition written the other way round")
+T("K63", "C12", ENS, "  while size * size <= n:", "  while size * size < n + 1:", "strict comparison against n + 1")
+F("K64", "C12", ENS, "    matrix = util.SplitSequence(truncated, size * size, size)", "    matrix = util.SplitSequence(truncated, size * size, 2 * size)", "R-C12-LADDER", "rows twice as long")
